@@ -831,7 +831,7 @@ def shape_ok(model, sd, params):
     # the new symbol of a retarget does not sit directly in front of padding
     # the library made (the label then names the padding block itself, which
     # belongs to no function, while in the listing it names what follows)
-    newsyms = {op["b"] for op in sd["ops"] if op["k"] == "retarget"}
+    newsyms = {op["b"] for op in sd["ops"] if op["k"] == "retarget"} | patch_targets  # (same for the operand of a branch/call a patch brings)
     if newsyms:
         for sname in m.section_order:
             for u in m.sections[sname]:
